@@ -380,9 +380,8 @@ func exploreC(t *testing.T, p polC, ctx0 string, alpha []csym, res *partCResult,
 		if len(res.Samples[jobIdx]) < 1 && len(consumed) >= 3 && p.Min > 0 && consumed[1] != c500 {
 			res.Samples[jobIdx] = append(res.Samples[jobIdx], map[string]any{"part": "C", "case": caseC{p, ctx0, csymStrings(consumed)}, "request_times": fmt.Sprint(r.Times), "returned": fmt.Sprint(r.Err)})
 		}
-		if r.Over {
-			return
-		}
+		// children: every other symbol at every position consumed beyond the prefix (an illegitimate request is not
+		// consumed: the harness ended the run there)
 		for j := len(prefix); j < len(consumed); j++ {
 			for _, a := range alpha {
 				if a == c500 {
